@@ -233,6 +233,9 @@ def p_super(I, n, pos, kw):
 
 @prim("builtins.enumerate")
 def p_enumerate(I, n, pos, kw):
+    start = kw.get("start", pos[1] if len(pos) > 1 else None)
+    if start is not None and not (isinstance(start, Sc) and start.e == sym.ZERO):
+        return I.unknown("enumerate-start", n)
     return ObjV(None, dict(inner=pos[0]), tag="enumerate")
 
 
@@ -354,6 +357,13 @@ def p_number(I, n, pos, kw):
     return Sc(sym.fn("int", v.e))
 
 
+@prim("builtins.str", "builtins.repr")
+def p_str(I, n, pos, kw):
+    if pos and isinstance(pos[0], StrV):
+        return pos[0]
+    return StrV("<formatted>")
+
+
 @prim("builtins.round")
 def p_round(I, n, pos, kw):
     if isinstance(pos[0], Sc) and len(pos) == 1:
@@ -389,6 +399,116 @@ TABLE["numpy.isinf"] = lambda I, n, pos, kw: arrays.unop(
 def p_sqrt(I, n, pos, kw):
     I.event("sqrt", n, arg=pos[0])
     return arrays.unop(lambda e: sym.fn("sqrt", e), pos[0])
+
+
+@prim("numpy.square")
+def p_square(I, n, pos, kw):
+    I.event("pow", n, base=pos[0], exponent=Sc(sym.Num(2)))
+    return arrays.unop(lambda e: sym.power(e, sym.Num(2)), pos[0])
+
+
+@prim("numpy.negative")
+def p_negative(I, n, pos, kw):
+    return arrays.unop(sym.neg, pos[0])
+
+
+@prim("numpy.reciprocal")
+def p_reciprocal(I, n, pos, kw):
+    return arrays.unop(lambda e: sym.div(sym.ONE, e), pos[0])
+
+
+@prim("numpy.hypot")
+def p_hypot(I, n, pos, kw):
+    return arrays.binop(lambda a, b: sym.fn("sqrt", sym.add(sym.power(a, sym.Num(2)), sym.power(b, sym.Num(2)))), pos[0], pos[1])
+
+
+@prim("numpy.float64", "numpy.float_", "numpy.double", "numpy.asfarray")
+def p_float64(I, n, pos, kw):
+    return pos[0] if pos else Sc(sym.ZERO)
+
+
+@prim("numpy.linalg.norm")
+def p_norm(I, n, pos, kw):
+    v = pos[0]
+    axis = kw.get("axis", pos[2] if len(pos) > 2 else None)
+    order = kw.get("ord", pos[1] if len(pos) > 1 else None)
+    a = arrays.to_arr(v) if not isinstance(v, Arr) else v
+    if not isinstance(a, Arr):
+        return I.unknown("linalg.norm", n)
+    o = None if order is None or isinstance(order, NoneV) else (_num(order) if isinstance(order, Sc) else "?")
+    if isinstance(order, Sc) and order.e == sym.INF:
+        o = "inf"
+    if o in (None, 2.0):
+        sq = arrays.unop(lambda e: sym.power(e, sym.Num(2)), a)
+        red = arrays.reduce_all(sq, "sum") if axis is None or isinstance(axis, NoneV) else arrays.reduce_axis(sq, int(_num(axis)), "sum")
+        return arrays.unop(lambda e: sym.fn("sqrt", e), red)
+    if o == 1.0:
+        ab = arrays.unop(lambda e: sym.fn("abs", e), a)
+        return arrays.reduce_all(ab, "sum") if axis is None or isinstance(axis, NoneV) else arrays.reduce_axis(ab, int(_num(axis)), "sum")
+    if o == "inf":
+        ab = arrays.unop(lambda e: sym.fn("abs", e), a)
+        return arrays.reduce_all(ab, "max") if axis is None or isinstance(axis, NoneV) else arrays.reduce_axis(ab, int(_num(axis)), "max")
+    return I.unknown("linalg.norm-ord", n)
+
+
+@prim("numpy.mean")
+def p_mean(I, n, pos, kw):
+    v = pos[0]
+    axis = kw.get("axis", pos[1] if len(pos) > 1 else None)
+    a = arrays.to_arr(v) if not isinstance(v, Arr) else v
+    if not isinstance(a, Arr):
+        return I.unknown("mean", n)
+    if axis is None or isinstance(axis, NoneV):
+        tot = arrays.reduce_all(a, "sum")
+        cnt = sym.ONE
+        for sp, _ in a.axes:
+            cnt = sym.mul(cnt, sp.size)
+        return arrays.unop(lambda e: sym.div(e, cnt), tot)
+    k = int(_num(axis))
+    tot = arrays.reduce_axis(a, k, "sum")
+    return arrays.unop(lambda e: sym.div(e, a.axes[k][0].size), tot)
+
+
+@prim("numpy.eye", "numpy.identity")
+def p_eye(I, n, pos, kw):
+    if pos and isinstance(pos[0], Sc):
+        return DiagMat(pos[0].e, fresh(), sym.ONE, sym.ZERO)
+    return I.unknown("eye", n)
+
+
+@prim("numpy.diag")
+def p_diag(I, n, pos, kw):
+    v = arrays.to_arr(pos[0]) if not isinstance(pos[0], Arr) else pos[0]
+    if isinstance(v, Arr) and v.ndim == 1 and len(pos) == 1:
+        sp, iv = v.axes[0]
+        return DiagMat(sp.size, iv, v.elem, sym.ZERO)
+    return I.unknown("diag", n)
+
+
+@prim("numpy.empty")
+def p_empty(I, n, pos, kw):
+    return _filled(I, n, pos, kw, sym.Opq("uninitialised", (), None))
+
+
+@prim("numpy.column_stack", "numpy.stack")
+def p_stack(I, n, pos, kw):
+    v = pos[0]
+    tgt = I.log[-1]["target"]
+    axis = kw.get("axis")
+    if isinstance(v, Seq) and v.items and all(isinstance(x, Arr) and x.ndim == 1 for x in v.items):
+        first = v.items[0]
+        sp, iv = first.axes[0]
+        elems = []
+        for x in v.items:
+            if not x.axes[0][0].same_size(sp):
+                return I.unknown("stack-shape", n)
+            elems.append(sym.subst_ivar(x.elem, x.axes[0][1], (iv, 0)))
+        c = fresh()
+        cols_last = tgt.endswith("column_stack") or (isinstance(axis, Sc) and axis.e in (sym.ONE, sym.Num(-1)))
+        if cols_last:
+            return Arr([(sp, iv), (fix(len(elems)), c)], sym.Sel(c, tuple(elems)), "nd")
+        return Arr([(fix(len(elems)), c), (sp, iv)], sym.Sel(c, tuple(elems)), "nd")
+    return Bag(_freshen(generic_elem(v)), None, False, None)
 
 
 @prim("numpy.maximum", "numpy.minimum")
